@@ -285,7 +285,18 @@ def canonicalise_renamed_functions(raw, vocab_sigs, strip_lt, log=None):
             order_lost = [p_ for p_ in vocab_sigs if p_ in rivals]
             for a_, b_ in zip(order_new, order_lost):
                 ren.setdefault(a_, b_)
-    if not ren:
+    # a function that kept its name and signature but moved to another parent (an associated function without `self`
+    # made a free function of another module, or the reverse): unique by name on both sides
+    moved = {}
+    last = lambda p: p.rsplit("::", 1)[1]
+    for lp, ls in lost.items():
+        if lp in ren.values() or not ls or "<" in lp:
+            continue
+        cands = [np for np, ns in new.items() if np not in ren and last(np) == last(lp) and ns == ls and "<" not in np and "{" not in np]
+        rivals = [lp2 for lp2 in lost if last(lp2) == last(lp)]
+        if len(cands) == 1 and len(rivals) == 1:
+            moved[cands[0]] = lp
+    if not ren and not moved:
         return {}
     # raw paths may carry lifetime arguments (`Type::<'a>::f`): rename by the last segment within the same parent
     s = json.dumps(raw)
@@ -293,6 +304,9 @@ def canonicalise_renamed_functions(raw, vocab_sigs, strip_lt, log=None):
         on, nn = o.rsplit("::", 1)[1], n.rsplit("::", 1)[1]
         par = _re.escape(parent(o)).replace("\\:\\:", "(?:::<[^>]*>)?::")
         s = _re.sub(r"(%s(?:::<[^>]*>)?::)%s(?![A-Za-z0-9_])" % (par, _re.escape(on)), lambda m: m.group(1) + nn, s)
+    for o, n in moved.items():
+        s = _re.sub(r"(?<![A-Za-z0-9_:])%s(?![A-Za-z0-9_])" % _re.escape(o), n.replace("\\", "\\\\"), s)
+    ren.update(moved)
     newraw = json.loads(s)
     raw.clear()
     raw.update(newraw)
